@@ -32,18 +32,20 @@ func init() {
 			{ID: "R08.6", Template: "T-WIDTH", Text: "in the backends' ABI code (entry preamble, Go-call trampolines, call-site argument/result moves) an arm labelled with a value type never emits a move narrower than that type", Min: 6},
 			{ID: "R08.7", Template: "T-OWN", Text: "every exported-function lookup yields a freshly allocated call engine (value stack and execution context are per api.Function)", Min: 2},
 			{ID: "R08.8", Template: "T-OWN", Text: "the reflection marshalling writes only the caller's stack or memory allocated in the same call", Min: 1},
+			{ID: "R08.11", Template: "T-CONSULT", Text: "amd64: no argument register is overwritten after the arguments of a call were placed (genuine defect found and fixed: r11 in indirect tail calls)", Min: 1},
 			{ID: "R08.10", Template: "T-MUSTPASS", Text: "results written by a host function are never masked by the parameter types", Min: 4},
 			{ID: "R08.9", Template: "T-MUSTPASS", Text: "the compiler's Go side zero-extends 32-bit slots before host functions, listeners and Call/CallWithStack callers see them (genuine defect found and fixed)", Min: 7},
 		},
 		Run: runC08,
 		Controls: []core.Control{
+			{Name: "tail-call-target-in-argument-register", File: "internal/engine/wazevo/backend/isa/amd64/machine.go", Old: "\t\t\tif arg := &calleeABI.Args[i]; arg.Kind == backend.ABIArgKindReg && arg.Reg.RealReg() == r11 {\n\t\t\t\tisAllRegs = false\n\t\t\t\tbreak\n\t\t\t}", New: "\t\t\t_ = i", Rule: "R08.11", Substr: "r11"},
 			{Name: "int32-result-sign-extended", File: "internal/wasm/gofunc.go", Old: "\t\tcase reflect.Int32:\n\t\t\tstack[i] = uint64(uint32(ret.Int())) // i32 values are zero-extended on the stack.\n\t\tcase reflect.Int64:", New: "\t\tcase reflect.Int32, reflect.Int64:", Rule: "R08.1", Substr: "result Int32"},
 			{Name: "float32-via-float64", File: "internal/wasm/gofunc.go", Old: "stack[i] = uint64(math.Float32bits(ret.Convert(float32Type).Interface().(float32)))", New: "stack[i] = uint64(math.Float32bits(float32(ret.Float())))", Rule: "R08.2", Substr: "result Float32"},
 			{Name: "float32-param-setfloat", File: "internal/wasm/gofunc.go", Old: "val.Set(reflect.ValueOf(math.Float32frombits(uint32(raw))).Convert(next))", New: "val.SetFloat(float64(math.Float32frombits(uint32(raw))))", Rule: "R08.2", Substr: "param Float32"},
 			{Name: "uint32-result-via-int", File: "internal/wasm/gofunc.go", Old: "\t\tcase reflect.Uint32, reflect.Uint64, reflect.Uintptr:\n\t\t\tstack[i] = ret.Uint()", New: "\t\tcase reflect.Uint32:\n\t\t\tstack[i] = uint64(int32(ret.Uint()))\n\t\tcase reflect.Uint64, reflect.Uintptr:\n\t\t\tstack[i] = ret.Uint()", Rule: "R08.1", Substr: "result Uint32"},
 			{Name: "amd64-i64-stack-arg-32bit-load", File: "internal/engine/wazevo/backend/isa/amd64/abi_go_call.go", Old: "\t\t\tcase ssa.TypeI32:\n\t\t\t\tload.asMovzxRmR(extModeLQ, mem, v)\n\t\t\tcase ssa.TypeI64:\n\t\t\t\tload.asMov64MR(mem, v)\n", New: "\t\t\tcase ssa.TypeI32, ssa.TypeI64:\n\t\t\t\tload.asMovzxRmR(extModeLQ, mem, v)\n", Rule: "R08.6", Substr: "amd64"},
 			{Name: "arm64-f64-result-32bit-load", File: "internal/engine/wazevo/backend/isa/arm64/abi_go_call.go", Old: "loadIntoReg.asFpuLoad(r.Reg, mode, 64)", New: "loadIntoReg.asFpuLoad(r.Reg, mode, 32)", Rule: "R08.6", Substr: "arm64"},
-			{Name: "host-results-masked-by-param-types", File: "internal/engine/wazevo/call_engine.go", Old: "\t\t\t\tf.Call(ctx, callerModule, s)\n\t\t\t}()\n\t\t\t// Call Listener.After.\n\t\t\tlistener.After(ctx, callerModule, def, s)", New: "\t\t\t\tf.Call(ctx, callerModule, s)\n\t\t\t}()\n\t\t\t// Call Listener.After.\n\t\t\tclearUpper32Bits(s, def.ParamTypes())\n\t\t\tlistener.After(ctx, callerModule, def, s)", Rule: "R08.10", Substr: "GoModuleFunctionWithListener"},
+			{Name: "host-results-masked-by-param-types", File: "internal/engine/wazevo/call_engine.go", Old: "\t\t\t\tf.Call(ctx, callerModule, s)\n\t\t\t}()\n\t\t\t// Call Listener.After.\n\t\t\tlistener.After(ctx, callerModule, def, s[:len(def.ResultTypes())])", New: "\t\t\t\tf.Call(ctx, callerModule, s)\n\t\t\t}()\n\t\t\t// Call Listener.After.\n\t\t\tclearUpper32Bits(s, def.ParamTypes())\n\t\t\tlistener.After(ctx, callerModule, def, s[:len(def.ResultTypes())])", Rule: "R08.10", Substr: "GoModuleFunctionWithListener"},
 			{Name: "results-not-zero-extended", File: "internal/engine/wazevo/call_engine.go", Old: "\t\t\tclearUpper32Bits(paramResultStack, c.resultTypes)\n\t\t\treturn nil\n", New: "\t\t\treturn nil\n", Rule: "R08.9", Substr: "results handed back"},
 			{Name: "host-args-not-zero-extended", File: "internal/engine/wazevo/call_engine.go", Old: "\t\t\tclearUpper32Bits(s, hostFunctionParamTypes(c.execCtx.goFunctionCallCalleeModuleContextOpaque, index))\n\t\t\tfunc() {\n\t\t\t\tif snapshotEnabled {\n\t\t\t\t\tdefer snapshotRecoverFn(c)\n\t\t\t\t}\n\t\t\t\tf.Call(ctx, s)", New: "\t\t\tfunc() {\n\t\t\t\tif snapshotEnabled {\n\t\t\t\t\tdefer snapshotRecoverFn(c)\n\t\t\t\t}\n\t\t\t\tf.Call(ctx, s)", Rule: "R08.9", Substr: "ExitCodeCallGoFunction "},
 			{Name: "reflect-args-cached-on-function", File: "internal/wasm/gofunc.go", Old: "\tvar in []reflect.Value\n\tpLen := tp.NumIn()\n\tif pLen != 0 {\n\t\tin = make([]reflect.Value, pLen)\n", New: "\tin := sharedIn\n\tpLen := tp.NumIn()\n\tif pLen != 0 {\n", Rule: "R08.8", Substr: "callGoFunc", Old2: "var _ api.GoModuleFunction = (*reflectGoModuleFunction)(nil)", New2: "var _ api.GoModuleFunction = (*reflectGoModuleFunction)(nil)\n\nvar sharedIn = make([]reflect.Value, 16)"},
@@ -486,6 +488,7 @@ func runC08(c *core.Ctx) {
 
 	checkEmitterWidths(c)
 	checkSlotNormalisation(c, "R08.9", "R08.10")
+	checkArgRegsNotClobbered(c)
 	checkFreshCallEngine(c)
 	checkMarshalScratch(c)
 
@@ -1116,4 +1119,145 @@ func rule9x(r string) string {
 		return "R12.8" // obligations are trivially discharged when only the second rule is wanted; keep them under the caller's rule
 	}
 	return r
+}
+
+// ---- R08.11: after the arguments of a call have been placed in their ABI registers, no argument register is overwritten ----
+
+// checkArgRegsNotClobbered: in the amd64 call lowerings, a move into a fixed register that is one of the integer argument
+// registers, emitted after the arguments were placed, needs a guard that scans the callee ABI's argument registers for it.
+func checkArgRegsNotClobbered(c *core.Ctx) {
+	p := c.Pkg("internal/engine/wazevo/backend/isa/amd64")
+	if p == nil {
+		return
+	}
+	info := p.TypesInfo
+	// the integer argument registers (composite literal of the ABI table) and the fixed virtual registers
+	argRegs := map[types.Object]bool{}
+	fixed := map[types.Object]types.Object{} // xVReg var → real register const
+	for _, f := range p.Syntax {
+		ast.Inspect(f, func(x ast.Node) bool {
+			vs, ok := x.(*ast.ValueSpec)
+			if !ok {
+				return true
+			}
+			for i, nm := range vs.Names {
+				if i >= len(vs.Values) {
+					continue
+				}
+				if cl, ok := vs.Values[i].(*ast.CompositeLit); ok && strings.Contains(strings.ToLower(nm.Name), "intarg") {
+					for _, e := range cl.Elts {
+						if id, ok := e.(*ast.Ident); ok {
+							if o := info.Uses[id]; o != nil {
+								argRegs[o] = true
+							}
+						}
+					}
+				}
+				if call, ok := vs.Values[i].(*ast.CallExpr); ok && len(call.Args) >= 1 {
+					if f := core.Callee(info, call); f != nil && f.Name() == "FromRealReg" {
+						if id, ok := call.Args[0].(*ast.Ident); ok {
+							if o := info.Uses[id]; o != nil {
+								fixed[info.Defs[nm]] = o
+							}
+						}
+					}
+				}
+			}
+			return true
+		})
+	}
+	if len(argRegs) == 0 || len(fixed) == 0 {
+		c.Undecided("R08.11", "amd64 integer argument registers / fixed virtual registers", 0, "tables not found")
+		return
+	}
+	// functions that place the arguments: those calling the per-argument placer, and their direct callers
+	places := map[string]bool{}
+	core.AllFuncDecls(p, func(fd *ast.FuncDecl) {
+		ast.Inspect(fd.Body, func(x ast.Node) bool {
+			if call, ok := x.(*ast.CallExpr); ok {
+				if f := core.Callee(info, call); f != nil && strings.Contains(f.Name(), "ToFunctionArg") {
+					places[fd.Name.Name] = true
+				}
+			}
+			return true
+		})
+	})
+	n := 0
+	core.AllFuncDecls(p, func(fd *ast.FuncDecl) {
+		var placedAt token.Pos
+		ast.Inspect(fd.Body, func(x ast.Node) bool {
+			if call, ok := x.(*ast.CallExpr); ok && placedAt == 0 {
+				if f := core.Callee(info, call); f != nil && places[f.Name()] {
+					placedAt = call.End()
+				}
+			}
+			return true
+		})
+		if placedAt == 0 {
+			return
+		}
+		// guards: comparisons of an argument's register with a real register
+		guarded := map[types.Object]bool{}
+		ast.Inspect(fd.Body, func(x ast.Node) bool {
+			if be, ok := x.(*ast.BinaryExpr); ok && (be.Op == token.EQL || be.Op == token.NEQ) {
+				for _, pair := range [][2]ast.Expr{{be.X, be.Y}, {be.Y, be.X}} {
+					if id, ok := pair[1].(*ast.Ident); ok && strings.Contains(core.ExprStr(pair[0]), "RealReg()") && strings.Contains(core.ExprStr(pair[0]), "Reg") {
+						if o := info.Uses[id]; o != nil {
+							guarded[o] = true
+						}
+					}
+				}
+			}
+			return true
+		})
+		// locals bound to a fixed register: tmp := r11VReg
+		alias := map[types.Object]types.Object{}
+		ast.Inspect(fd.Body, func(x ast.Node) bool {
+			if as, ok := x.(*ast.AssignStmt); ok && len(as.Lhs) == 1 && len(as.Rhs) == 1 {
+				if l, ok := as.Lhs[0].(*ast.Ident); ok {
+					if r, ok := as.Rhs[0].(*ast.Ident); ok {
+						if ro := info.Uses[r]; ro != nil && fixed[ro] != nil {
+							lo := info.Defs[l]
+							if lo == nil {
+								lo = info.Uses[l]
+							}
+							alias[lo] = ro
+						}
+					}
+				}
+			}
+			return true
+		})
+		ast.Inspect(fd.Body, func(x ast.Node) bool {
+			call, ok := x.(*ast.CallExpr)
+			if !ok || call.Pos() < placedAt || len(call.Args) < 2 {
+				return true
+			}
+			f := core.Callee(info, call)
+			if f == nil || f.Name() != "InsertMove" {
+				return true
+			}
+			id, ok := call.Args[0].(*ast.Ident)
+			if !ok {
+				return true
+			}
+			o := info.Uses[id]
+			if a := alias[o]; a != nil {
+				o = a
+			}
+			real := fixed[o]
+			if real == nil {
+				return true
+			}
+			n++
+			c.Check(!argRegs[real] || guarded[real], "R08.11", "amd64 "+fd.Name.Name+": move into "+real.Name()+" after the arguments were placed does not clobber an argument", call.Pos(),
+				real.Name()+" is not an argument register, or the callee's argument registers are scanned for it first",
+				real.Name()+" is an integer argument register and the move is emitted after the arguments were placed, with no scan of the callee ABI's argument registers: a callee that takes an argument there (the seventh integer parameter) receives the moved value instead (e.g. the code address of an indirect tail call)")
+			return true
+		})
+	})
+	c.Count("fixed_register_moves_after_arg_placement", n)
+	if n == 0 {
+		c.Undecided("R08.11", "fixed-register moves after argument placement", 0, "none found")
+	}
 }
